@@ -46,6 +46,28 @@ Fixpoint ua_loop (doa dsa : bytes -> ores) (l : list item) (o s : option bytes) 
 Definition ua_try_from (doa dsa : bytes -> ores) (l : list item) : outcome uaddr unit :=
   ua_loop doa dsa l None None None [].
 
+(** the same conversion in a build WITHOUT the `orchard` feature: the Orchard receiver is not
+    interpreted and is kept, under its typecode, among the unknown items *)
+Fixpoint ua_loop_ns (dsa : bytes -> ores) (l : list item) (s : option bytes) (t : option taddr)
+  (unk : list item) : outcome uaddr unit :=
+  match l with
+  | [] => Ok (mkUaddr None s t (rev unk))
+  | (c, d) :: r =>
+      match tc_of_u32 c with
+      | Some TcSapling =>
+          match dsa d with
+          | OSome k => ua_loop_ns dsa r (Some k) t unk
+          | ONone => Err tt | OPanic => Panic
+          end
+      | Some TcP2pkh => ua_loop_ns dsa r s (Some (PKH d)) unk
+      | Some TcP2sh => ua_loop_ns dsa r s (Some (SH d)) unk
+      | _ => ua_loop_ns dsa r s t ((c, d) :: unk)      (* Orchard: (typecode, bytes) *)
+      end
+  end.
+
+Definition ua_try_from_ns (dsa : bytes -> ores) (l : list item) : outcome uaddr unit :=
+  ua_loop_ns dsa l None None [].
+
 Definition taddr_item (a : taddr) : item := match a with PKH h => (0, h) | SH h => (1, h) end.
 
 (** [to_zcash_address]: unknown, Orchard, Sapling, transparent; [try_from_items] sorts; the
